@@ -1,4 +1,5 @@
 import RedoModel.Lemmas.Tokens
+import RedoModel.Props.C08b
 /-!
 # C08 — Job tokens are conserved and -j is respected
 Property theorems only.  Model: `RedoModel/Tokens.lean` (an acceptor for the primitive token events
